@@ -458,7 +458,7 @@ func c12Invalid(e *core.Env, rep *core.Report, bin, root string) {
 			invs = append(invs, inv{lvl, l, "unknown setting or malformed value"})
 		}
 	}
-	for _, l := range []string{"map", "map A B C", "map A.B", "map A B.C", "ignore", "enum:map A", "enum:map A B C", "enum:map A @nope", "enum:transform bogus x", "autoMap", "autoMap A B", "update", "update a b", "context", "context a b", "default", "default Nope", "map V V | Nope", "map V V | vcase/w/nosuchpkg:F", "default Zzz.*"} {
+	for _, l := range []string{"map", "map A B C", "map A.B", "map A B.C", "ignore", "enum:map A", "enum:map A B C", "enum:map A @nope", "enum:transform bogus x", "autoMap", "autoMap A B", "update", "update a b", "context", "context a b", "default", "default Nope", "map V V | Nope", "context nosuch", "map V V | vcase/w/nosuchpkg:F", "default Zzz.*"} {
 		if l == "ignore" {
 			continue // empty ignore is not judged
 		}
